@@ -91,6 +91,12 @@ def programs(ctx):
         # joining onto a promise whose resolution is pending (Fulfill waits for a pipelined call)
         [[O("PSend", "p", "f0")], [O("Fulfill", "p", kind="cap")], [O("Join", "r", to="p"), O("PSend", "r", "f0")]],
     ]
+    chains += [
+        # the target of a Join is resolved while the Join waits for the joined promise's in-flight pipelined calls
+        [[O("PSend", "p", "f0")], [O("Join", "p", to="q"), O("Struct", "p")], [O("Fulfill", "q", kind="cap")]],
+        [[O("PSend", "p", "f0")], [O("Join", "p", to="q"), O("PSend", "p", "f0")], [O("Reject", "q")]],
+        [[O("PSend", "p", "f0")], [O("Join", "p", to="q"), O("Client", "q", "f0", "x1"), O("CCall", h="x1")], [O("Join", "q", to="r"), O("Fulfill", "r", kind="cap")]],
+    ]
     # three-thread race programs: depth-first enumeration changes late decisions first; random schedules reach early switches
     cb = 400 if ctx.quick else 3000
     for i, c in enumerate(chains):
